@@ -132,3 +132,34 @@ func init() {
 		return mkStr(buf)
 	}
 }
+
+func init() {
+	// Go >= 1.23 routes strings.Cut/Index/... through internal/stringslite and internal/bytealg
+	externals["internal/bytealg.IndexByteString"] = externals["strings.IndexByte"]
+	externals["internal/bytealg.IndexByte"] = externals["bytes.IndexByte"]
+	externals["internal/stringslite.IndexByte"] = externals["strings.IndexByte"]
+	externals["internal/stringslite.Index"] = externals["strings.Index"]
+	externals["internal/bytealg.IndexString"] = externals["strings.Index"]
+	externals["internal/stringslite.HasPrefix"] = externals["strings.HasPrefix"]
+	externals["internal/stringslite.HasSuffix"] = externals["strings.HasSuffix"]
+	externals["internal/bytealg.CountString"] = func(fr *frame, a []value) value {
+		s := strBytes(a[0])
+		n := 0
+		for i := range s {
+			if byteEq(s[i], a[1]) {
+				n++
+			}
+		}
+		return n
+	}
+	externals["internal/bytealg.LastIndexByteString"] = func(fr *frame, a []value) value {
+		s := strBytes(a[0])
+		for i := len(s) - 1; i >= 0; i-- {
+			if byteEq(s[i], a[1]) {
+				return i
+			}
+		}
+		return -1
+	}
+	externals["strings.LastIndexByte"] = externals["internal/bytealg.LastIndexByteString"]
+}
